@@ -884,6 +884,25 @@ fn run_random_stride(ctx: &mut Ctx) {
 
 // ---------------------------------------------------------------- C19: FlatStack spends nothing on dense indices
 
+fn continue_check<R: Region, S: fidx::IndexContainer<R::Index>>(r: &R, fs: &flatcontainer::FlatStack<R, S>, k: usize) -> Result<(), String> {
+    let a = heap_of(r);
+    let mut used = 0;
+    let mut cap = 0;
+    fs.heap_size(|u, c| {
+        used += u;
+        cap += c;
+    });
+    if used != a.used || cap != a.cap {
+        return Err(format!(
+            "after {} items (the last one through extend) the FlatStack reports used {used} / capacity {cap}, the bare region used {} / capacity {}",
+            k + 1,
+            a.used,
+            a.cap
+        ));
+    }
+    Ok(())
+}
+
 pub fn run_stack_share<E: Entry, S: IdxC<Idx<E>>>(ctx: &mut Ctx) {
     if !S::COMPRESSING {
         // the clause is about the optimised index container only
@@ -909,6 +928,16 @@ pub fn run_stack_share<E: Entry, S: IdxC<Idx<E>>>(ctx: &mut Ctx) {
             let _ = E::push(&mut r, v, form, &mut aux);
             if k % 48 == 47 {
                 aux.clear();
+            }
+            // reservations and batch-wise extension must not cost the stack anything either
+            match k % 23 {
+                5 => fs.reserve(1 + k % 7),
+                11 => {
+                    E::fs_extend(&mut fs, std::slice::from_ref(v));
+                    continue_check(&r, &fs, k)?;
+                    continue;
+                }
+                _ => {}
             }
             E::fs_copy(&mut fs, v, form, &mut aux);
             if k < 50 || k % 101 == 0 || k + 1 == n {
